@@ -315,13 +315,15 @@ def columnEnd (f : Format) (colBeg : Nat) : Prog (Option Nat) :=
 /-- `read_reference_sequence_names`: `l_nm` (`i32`, non-negative), then
 `BufReader::new(reader.take(l_nm))` is read to its end with `read_until(NUL)`: the next `l_nm` bytes
 — fewer if the stream is shorter — split at NUL; a last name without NUL or a repeated name is an
-error -/
+error.  After the names (/repo `fix:` 125ecd7) a `Take` that still has `limit() > 0` — the stream ended
+before `l_nm` bytes — is `UnexpectedEof`: a names block cut short by the end of the input is rejected
+even when what is there ends with a NUL.  (Before 125ecd7 the names that were there were accepted.) -/
 def names : Prog (List Bytes) := do
   let l ← i32leNonneg
   upTo l fun bs =>
     match Noodles.Index.namesGo bs [] [] with
     | .error _ => fail .invalidData
-    | .ok ns => ret ns
+    | .ok ns => if bs.length < l then fail .eof else ret ns
 
 /-- noodles-csi `read_header` -/
 def tabixHeader : Prog Header := do
@@ -362,14 +364,29 @@ def limit : Nat → Prog β → Prog β
     else upTo l fun bs => limit 0 (k (if bs.length = 0 then .ok [] else .error .eof))
   | l, upTo n k => upTo (min n l) fun bs => limit (l - bs.length) (k bs)
 
+/-- a reader run over `reader.take(l)` as `Prog.limit`, returning also the limit that is left -/
+def limitRem : Nat → Prog β → Prog (β × Nat)
+  | l, ret b => ret (b, l)
+  | _, fail e => fail e
+  | l, exact n k =>
+    if n ≤ l then exact n fun r => limitRem (l - n) (k r)
+    else upTo l fun _ => limitRem 0 (k (.error .eof))
+  | l, exactOrEof n k =>
+    if n ≤ l then exactOrEof n fun r => limitRem (l - n) (k r)
+    else upTo l fun bs => limitRem 0 (k (if bs.length = 0 then .ok [] else .error .eof))
+  | l, upTo n k => upTo (min n l) fun bs => limitRem (l - bs.length) (k bs)
+
 /-- `read_aux`: `l_aux` (`i32`, non-negative); when positive the header is read from
-`reader.take(l_aux)`; what the header reader leaves of those bytes is not skipped -/
+`reader.take(l_aux)` and then (/repo `fix:` 8288cb5) `io::copy(&mut aux_reader, &mut io::sink())?`
+reads and drops what the header reader left of the `Take`: all `l_aux` bytes are consumed (fewer only
+if the stream ends, which is not an error here).  (Before 8288cb5 the rest was left in the stream and
+`n_ref` was read from it.) -/
 def csiAux : Prog (Option Header) := do
   let l ← i32leNonneg
   if l = 0 then return none
   else
-    let h ← limit l tabixHeader
-    return some h
+    let (h, rem) ← limitRem l tabixHeader
+    upTo rem fun _ => ret (some h)
 
 /-- `read_bins` (CSI): per bin a `u32` id and a `u64` loffset, then the metadata payload or the chunks -/
 def binsCsi (metaId : Nat) :
